@@ -9,13 +9,16 @@ CLAUSE = 'decoder(encoder(s)) read by the independent reader = s read by the ind
 TRUSTED = ['spec/Reader.v (independent reader) and spec/RoundTrip.v (same_molecule); the re-speller harness/gen_smiles.py only proposes inputs',
            'inputs the independent reader cannot read (e.g. %0n labels, exotic syntax) are not judged']
 GEN = dict(mutate=0.3)
+EXPLICIT_AROMATIC = ['c:1:c:c:c:c:c:1', 'c:1:c:c:c:c:c1', 'c1:c:c:c:c:c:1', 'n:1:c:c:c:c:c:1', 'Cc:1:c:c:c:c:c:1', 'c:1:c:c:c:2:c:c:c:c:c:2:c:1', 'c1:c:c:c:c:c1', 'o:1:c:c:c:c:1',
+                     'c:1:c:c:[nH]:c:1', 'c1cc:ccc1', 'c:1ccccc1', 'C:1C=CC=CC:1', 'c1c[15n]cc[15n]1', 'c1c[n]cc[n]1', 'c1cc[15n][15n]c1', 'Cc1c[15n]c(C)c[15n]1',
+                     'c1cc[n]cc1', 'c1c[p]cc[p]1', 'c1cc[as]cc1', 'c1c[13c]ccc1', 'c1cc[nH]c1', 'c1cc[n+](C)cc1', 'c1ccc2[nH]ccc2c1', 'c1ccsc1', 'c1cc[se]c1']
 
 
 def spans_ok(sel):
     return True
 
 
-def run(rep, tier, seed, b, prop_key=None, clause=None, gen=None, ident=None):
+def run(rep, tier, seed, b, prop_key=None, clause=None, gen=None, ident=None, extra=None):
     prop_key = prop_key or PROP_KEY
     clause = clause or CLAUSE
     gen = gen or GEN
@@ -26,6 +29,9 @@ def run(rep, tier, seed, b, prop_key=None, clause=None, gen=None, ident=None):
     smis = E.gen_smiles_cases(rng, n, **gen)
     smis += E.ring_symbol_cases(rng, 900 if tier == 'quick' else 20000)
     smis += E.large_span_cases(rng, 9 if tier == 'quick' else 600)
+    if extra:
+        smis += extra(rng, tier)
+        rep.extra['extra_family'] = True
     items = [(tabs[i % len(tabs)] if rng.random() < 0.5 else tabs[0], x, True, False) for i, x in enumerate(smis)]
     # the same spelling under a permissive table and then, in the same process, under tighter ones
     # (chunks are processed in order by one worker: a result carried over from the first call would show in the second)
@@ -77,8 +83,10 @@ def replay(data, prop_key=None):
     i = data['failure']['input']
     r = E.work([(i['table'], i['smiles'], True, False)], {'roundtrip': True})[0]
     rt = r.get('rt') or {}
+    kek = 'Kekule structure' in str(data['failure'].get('clause', ''))
     return {'input': i, 'impl': r['impl'], 'decoded': r.get('decoded'), 'oracle': rt,
-            'fails': ('ok' in r['impl']) and not (rt.get(prop_key) and 'ok' in r.get('decoded', {}))}
+            'fails': ('ok' in r['impl']) and (not (rt.get(prop_key) and 'ok' in r.get('decoded', {}))
+                                              or (kek and not (rt.get('kekule_ok') and rt.get('out_kekule_form'))))}
 
 
 def known(f):
@@ -103,10 +111,20 @@ def search(rep, tier, seed, b, dis, prop_key=None, clause=None, ident=None):
             x, _o = gen_smiles.respell(m, rng, digits_after_branches=0.3)
             items.append((inp['table'], x, True, False))
     items += [(E.relaxed_table(), x, True, False) for x in E.gen_smiles_cases(rng, 6000, mutate=0.3)]
+    # aromatic systems spelt with the explicit ':' bond symbol, and aromatic rings with bracketed / isotope-labelled hetero atoms
+    items += [(E.relaxed_table(), x, True, False) for x in EXPLICIT_AROMATIC]
     res = core.pmap('enc_side', 'work', items, extra={'roundtrip': True}, chunk=300)
+    import p_c05
     for it, r in zip(items, res):
         rep.evaluations += 1
         rt = r.get('rt') or {}
         if 'ok' in r['impl'] and rt.get('read_in') and not (rt.get('read_out') and rt.get(prop_key)):
             rep.oracle_failures.append({'clause': clause, 'input': {'table': it[0], 'smiles': it[1]},
+                                        'impl': {'selfies': r['impl']['ok'], 'smiles_out': r.get('decoded', {}).get('ok')}, 'oracle': rt})
+        elif (prop_key == 'same_molecule' and 'ok' in r['impl'] and rt.get('read_in') and rt.get('read_out') and rt.get('same_molecule')
+              and not (rt.get('kekule_ok') and rt.get('out_kekule_form')) and p_c05.classify(it[1]) is None and E.blossom_class(it[1]) is None):
+            # only in this search (a proof or the tie is already broken): the bond orders inside a former aromatic system, which same_molecule
+            # leaves open (single or double), must form a Kekule structure of the input - otherwise it is not the same molecule
+            rep.oracle_failures.append({'clause': clause + '; the orders inside a former aromatic system form a Kekule structure of it',
+                                        'input': {'table': it[0], 'smiles': it[1]},
                                         'impl': {'selfies': r['impl']['ok'], 'smiles_out': r.get('decoded', {}).get('ok')}, 'oracle': rt})
